@@ -296,6 +296,32 @@ def _label_of(node):
     return (node["kind"],)
 
 
+def graph_consistency(dump):
+    """Internal consistency of a dumped graph, independent of the expression tree (so it is also decidable for the expression
+    classes whose graphs are known not to be the expression tree): every operation node's recorded operand ids must be exactly
+    its in-edges, edges only lead into operation nodes, no cycles, one sink.  None or (symptom, detail)."""
+    nodes = {n["id"]: n for n in dump["nodes"]}
+    preds = {}
+    for a, b in dump["edges"]:
+        if a not in nodes or b not in nodes:
+            return "edge_to_unknown_node", "edge %s->%s" % (a, b)
+        if nodes[b]["kind"] != "F":
+            return "edge_into_leaf", "edge %s->%s leads into an operand node" % (a, b)
+        preds.setdefault(b, set()).add(a)
+    for i, n in nodes.items():
+        if n["kind"] != "F":
+            continue
+        ops = [o for o in n["operands"]]
+        if set(ops) != preds.get(i, set()):
+            return "operands_vs_edges", "operation node %s lists operands %s but has in-edges from %s" % (i, ops, sorted(preds.get(i, set())))
+    g = nx.DiGraph()
+    g.add_nodes_from(nodes)
+    g.add_edges_from(map(tuple, dump["edges"]))
+    if not nx.is_directed_acyclic_graph(g):
+        return "cycle", "edges %s" % (dump["edges"],)
+    return None
+
+
 def graph_diff(tree, case, spec, dump, sv_shapes):
     """None if the dumped graph is the expression tree, else (symptom, detail)"""
     exp, root, order = expected_graph(tree, case, spec)
